@@ -74,7 +74,7 @@ def rand_arg(rng, depth=3, bad_at=None, level=0):
         kids = [rand_arg(rng, depth - 1, None, level + 1) for _ in range(n)]
         if bad_at is not None:
             kids.insert(rng.randint(0, len(kids)), rand_arg(rng, depth - 1, bad_at, level + 1))
-        return {"k": "list", "t": rng.choice(["list", "tuple", "taglist"]) if bad_at is None else rng.choice(["list", "tuple"]), "c": kids}
+        return {"k": "list", "t": rng.choice(["list", "tuple", "taglist", "list", "tuple", "taglist", "listrepr", "tupletf"]) if bad_at is None else rng.choice(["list", "tuple", "listrepr"]), "c": kids}
     r = rng.random()
     if r < 0.22:
         return {"k": "text", "s": rng.choice(["", "a", "bcd", "x y", "<&>", "é"])}
